@@ -110,32 +110,7 @@ fn one_case(run: &Run, case: u64) {
     // scale and unusual names: every 40th case is a wide, deep tree (hundreds of entries in one
     // directory, > 100 blocks, 250-byte names, a chain of 30 nested directories)
     if case % 40 == 7 {
-        let wide = "/wide";
-        spec.insert(wide.into(), tree::Node::dir());
-        let n_files = 150 + rng.below(350) as usize;
-        for i in 0..n_files {
-            let len = if i % 7 == 0 { o.block.min(300) + 1 } else { rng.below(12) as usize };
-            let mut n = tree::Node::file(tree::gen_content(&mut rng, len.min(p.max_plain_size)));
-            n.mtime_s = 1_500_000_000 + i as i64;
-            n.mode = 0o600 + (i as u32 % 0o100);
-            spec.insert(format!("{wide}/f{i:04}"), n);
-        }
-        for i in 0..40 {
-            spec.insert(format!("{wide}/d{i:02}"), tree::Node::dir());
-            spec.insert(format!("{wide}/d{i:02}/x"), tree::Node::file(tree::gen_content(&mut rng, i)));
-        }
-        let long_ascii = "L".repeat(250);
-        let long_multi = "é".repeat(125);
-        for name in [long_ascii.as_str(), long_multi.as_str(), "a\\b", "trailing.", "trailing ", "CON", "~", "-", "..."] {
-            spec.insert(format!("{wide}/{name}"), tree::Node::file(tree::gen_content(&mut rng, 3)));
-        }
-        let mut deep = String::from("/deep");
-        spec.insert(deep.clone(), tree::Node::dir());
-        for i in 0..30 {
-            deep = format!("{deep}/n{i}");
-            spec.insert(deep.clone(), tree::Node::dir());
-        }
-        spec.insert(format!("{deep}/bottom"), tree::Node::file(tree::gen_content(&mut rng, 10)));
+        tree::add_wide_and_deep(&mut spec, &mut rng, o.block, p.max_plain_size);
     }
     let sc = Scratch::new("c01");
     let src = sc.join("src");
